@@ -100,6 +100,18 @@ def seeds(rng, kind):
                 img, info = P.build_cia(conts, title_id=0x0004000000012300, titlekey=bytes(16), common_key_x=ckx)
                 be = [d for o, w, d in info['fields'] if d.startswith(('tmd.', 'ticket.'))]
                 out.append((f'cia#{t}', img, info['fields'], 'mixed', None))
+                if t == 0:
+                    # a content that is a whole NCCH (extended header, ExeFS, RomFS) behind the title-key layer: cut short, its header
+                    # points past what is there
+                    spec = nc.gen_spec(rng, small=True)
+                    spec.update(mode='nocrypto', uses_seed=False, b9seed=777, extheader=True, romfs=True)
+                    if not spec['exefs']:
+                        spec['exefs'], spec['slots'] = [['.code', 0x210]], [0]
+                    image = nc.build(spec)[0]
+                    data = image + b'\0' * ((-len(image)) % 16)
+                    conts = [dict(id=1, index=0, data=data, encrypted=True)]
+                    img, info = P.build_cia(conts, title_id=0x0004000000012300, titlekey=bytes(16), common_key_x=ckx)
+                    out.append(('cia#ncch', img, info['fields'], 'mixed', None))
             else:
                 img, info = P.build_cci({0: n1, rng.choice([1, 6, 7]): n1})
                 out.append((f'cci#{t}', img, info['fields'] + word_fields(0x100, 0x120), False, None))
@@ -185,6 +197,14 @@ def tasks(rng, budget, exhaustive=False):
             except Exception:
                 data = patch(img, f[0], f[1], v, is_big(big, f[2]))
             yield ([kind, name, f'{f[2]}@{f[0]:#x}:={v:#x}'], kind, data)
+        # truncated files: every reader meets a file that ends early (cut at field boundaries, in the middle, near the end)
+        for name, img, fields, big, patcher in ss:
+            cuts = sorted({len(img) - 1, len(img) - 16, len(img) // 2, len(img) * 3 // 4, 0x200, 0x1FF} |
+                          {f[0] + f[1] for f in rng.sample(fields, min(len(fields), 3))} |
+                          {rng.randrange(1, max(2, len(img))) for _ in range(2 if not exhaustive else 12)})
+            for cut in cuts:
+                if 0 < cut < len(img):
+                    yield ([kind, name, f'truncated@{cut:#x}'], kind, img[:cut])
         # pairs
         for _ in range(per_kind // 4):
             if not ss:
